@@ -263,6 +263,18 @@ func (c *Ctx) oauthPIDCodec() {
 	for _, call := range CallsTo(mk, "fmt.Sprintf") {
 		format, _ = constArgStr(call, 0)
 	}
+	viaConcat := false
+	if format == "" {
+		// the writer may build the identifier by concatenation
+		for _, b := range mk.Blocks {
+			for _, in := range b.Instrs {
+				if ret, ok := in.(*ssa.Return); ok && len(ret.Results) == 1 {
+					format = concatFormat(ret.Results[0], mk, 0)
+					viaConcat = format != ""
+				}
+			}
+		}
+	}
 	sep := ""
 	for _, call := range CallsTo(ps, "strings.Split") {
 		sep, _ = constArgStr(call, 1)
@@ -272,10 +284,15 @@ func (c *Ctx) oauthPIDCodec() {
 		return
 	}
 	parts := strings.Split(format, sep)
-	okW := len(parts) == 3 && parts[1] == "%s" && parts[2] == "%s" && !strings.Contains(parts[0], "%")
+	isVerb := func(s string) bool { return s == "%s" || s == "%[1]s" || s == "%[2]s" }
+	okW := len(parts) == 3 && isVerb(parts[1]) && isVerb(parts[2]) && !strings.Contains(parts[0], "%")
 	r.Check(okW, "C14.codec", FuncName(mk), "format", c.P.Pos(mk.Pos()), sprintf("%q splits on %q into prefix, provider, uid", format, sep), sprintf("writer format %q is not prefix%sprovider%suid", format, sep, sep))
 	if !okW {
 		return
+	}
+	if viaConcat {
+		// concatFormat numbers the parameters: %[1]s must precede %[2]s
+		r.Check(strings.Index(format, "%[1]s") >= 0 && strings.Index(format, "%[1]s") < strings.Index(format, "%[2]s"), "C14.codec", FuncName(mk), "argument order", c.P.Pos(mk.Pos()), "provider then uid", "writer does not concatenate (provider, uid) in that order")
 	}
 	// writer passes (provider, uid) in that order
 	for _, call := range CallsTo(mk, "fmt.Sprintf") {
@@ -361,4 +378,32 @@ func anyArgDerives(c *Ctx, call ssa.CallInstruction, from ssa.Value) bool {
 		}
 	}
 	return false
+}
+
+// concatFormat renders a string built by concatenation of constants and
+// parameters as a format string ("%[i]s" for the i-th parameter), "" if the
+// expression contains anything else.
+func concatFormat(v ssa.Value, fn *ssa.Function, d int) string {
+	if d > 12 {
+		return ""
+	}
+	if s, ok := ConstStr(v); ok {
+		return s
+	}
+	switch x := v.(type) {
+	case *ssa.Parameter:
+		return sprintf("%%[%d]s", paramIndex(x)+1)
+	case *ssa.BinOp:
+		l, r := concatFormat(x.X, fn, d+1), concatFormat(x.Y, fn, d+1)
+		if l == "" || r == "" {
+			if sx, ok := ConstStr(x.X); ok && sx == "" {
+				return r
+			}
+			return ""
+		}
+		return l + r
+	case *ssa.Convert:
+		return concatFormat(x.X, fn, d+1)
+	}
+	return ""
 }
